@@ -25,7 +25,8 @@ RULE = (
     "(MHOU.rst: exponentiated a(xi^2 mu^2) at both ends, expanded a(xi^2 mu^2) at the target only, none on an "
     "intermediate threshold segment) obtained from an independent DOP853 solution of the truncated RGE. D(lambda) = "
     "max|K_var - K_unv| / max|K_unv|; the exponent from the two smallest usable lambdas must be >= n - 0.25 for both "
-    "schemes; xi=1 and expanded-on-threshold-segment must reproduce the unvaried kernel exactly. E (end to end): tiny "
+    "schemes (a reading below that is final only after following lambda down to 1/512 and if the local exponents do not "
+    "rise towards n: Richardson value 2 e_last - e_prev); xi=1 and expanded-on-threshold-segment must reproduce the unvaried kernel exactly. E (end to end): tiny "
     "fixed-flavour solves (2-3 point grids), orders 1-3 (quick: 1-2) and QED (n,1),(n,2), one scheme, xi^2 in [1/4,4], "
     "alpha_s(mu0) in [0.2,0.3] scaled by lambda in {1,1/2,1/4,1/8} (QED {1,1/2,1/4}) with the evolution length "
     "ln(mu1^2/mu0^2) scaled by 1/lambda (fixed coupling ratio, the regime in which a_s^n is the sharp power); R(lambda) = "
@@ -36,14 +37,20 @@ RULE = (
 )
 ASSUMPTIONS = [
     "beta coefficients from eko.beta (decided by C20); the RGE itself, its truncation and the scheme prescriptions are "
-    "typed from the documentation; a(xi^2 mu^2) by scipy DOP853 at rtol 1e-12",
+    "typed from the documentation; a(xi^2 mu^2) by scipy DOP853 at rtol 1e-13",
     "kernel half: the harness replaces, in its own interpreted process, the names ad_us and select_*_element seen by "
     "eko.evolution_operator.quad_ker so that quad_ker_qcd / quad_ker_qed run on generated towers and return whole "
     "matrices (no repository change)",
-    "usable lambda (K): D > 1e-9 (100 x the 1e-11 noise of the RGE solution) and, for iterating kernels, D > 20 x the "
+    "usable lambda (K): D > 3e-11 (30 x the 1e-12 noise bound of the RGE solution at rtol 1e-13; measured over 1200 kernels: "
+    "max 2.5e-13 at rtol 1e-12, median 2e-15) and, for iterating kernels, D > 20 x the "
     "discretisation cross-term 4 |gamma_0| |ln xi^2| a c^3 / iterations^2 (c = |ln a1/a0|; measured plateau 1.2e-5 a at "
     "c=0.29, 40 steps, i.e. 0.3 x this bound): the mid-point rule error differs between varied and unvaried coupling "
     "lists at O(a/iterations^2), which is a property of the iterated solution, not of the scale variation",
+    "kernel verdict: a first reading below n - 0.25 is final only after following lambda down to 1/512 (while usable) "
+    "and if the local exponents do not rise towards n (Richardson value 2 e_last - e_prev for halved lambdas): with "
+    "tens of thousands of random towers the leading coefficient is occasionally ~100x smaller than natural, so that "
+    "the a^(n+1) term still bends the exponent at lambda = 1/16 (seen once in 32000 cases: local exponents 2.08, 2.60, "
+    "2.83 at n = 3); a genuine lower-order term makes the local exponents fall towards n - 1 instead",
     "QED kernel lists: a_s at the borders of uniform steps in ln mu^2 and (a_s, a_em) at the geometric mid-point along "
     "the shifted trajectory (the arithmetic mu^2 mid-point of the operator degenerates to an end-point rule for the long "
     "steps of the fixed-ratio regime); alpha_em is scaled by lambda^n so that the terms the QED variation neglects by "
@@ -64,7 +71,7 @@ LEVEL_TEXT = (
 
 K_THR = 0.25
 E_THR = 0.3
-K_NOISE = 1e-11
+K_NOISE = 1e-12
 E_NOISE = 3e-8
 METHODS_NS = (
     "iterate-exact", "iterate-expanded", "perturbative-exact", "perturbative-expanded", "truncated", "ordered-truncated",
@@ -77,7 +84,7 @@ SCHEMES = ("exponentiated", "expanded")
 
 def budget(tier):
     if tier == "quick":
-        return dict(max_examples=6000, shards=16, wall_s=150, shrink_s=30)
+        return dict(max_examples=6000, shards=16, wall_s=150, shrink_s=15)
     return dict(max_examples=32000, shards=16, wall_s=850, shrink_s=150)
 
 
@@ -192,12 +199,33 @@ def strategy(tier):
 # --------------------------------------------------------------------------------------------- kernel half
 
 
-def _exponent_two_smallest(lams, D, usable):
+EXTRA_LAMBDAS = [1 / 128, 1 / 256, 1 / 512]
+
+
+def _verdict(lams, D, usable, n):
+    """Measured exponent of D ~ lambda^e and whether it reaches n - K_THR.
+
+    First reading: the two smallest usable lambdas (DESIGN section 2).  If that reading is too small, the three smallest
+    usable lambdas are consulted: for D = c a^n (1 + r a + ...) the local exponent approaches n linearly in a, so with
+    lambda halved each time e_inf = 2 e_last - e_prev; a genuine lower-order term makes the local exponents *fall*
+    towards n - 1 instead.  Accepted only if the local exponents rise and the extrapolated (or last) value reaches
+    n - K_THR.  Returns (exponent reported, ok, local exponents) or None if fewer than two lambdas are usable."""
     idx = [i for i in range(len(lams)) if usable[i]]
     if len(idx) < 2:
         return None
-    i, j = idx[-2], idx[-1]  # lambdas are decreasing
-    return math.log(D[i] / D[j]) / math.log(lams[i] / lams[j])
+
+    def loc(i, j):
+        return math.log(D[i] / D[j]) / math.log(lams[i] / lams[j])
+
+    e_last = loc(idx[-2], idx[-1])
+    if e_last >= n - K_THR:
+        return e_last, True, [e_last]
+    if len(idx) < 3:
+        return e_last, False, [e_last]
+    e_prev = loc(idx[-3], idx[-2])
+    rich = 2.0 * e_last - e_prev
+    ok = e_last > e_prev and rich >= n - K_THR
+    return (rich if ok else e_last), ok, [e_prev, e_last]
 
 
 def check_kernel(case):
@@ -217,7 +245,7 @@ def check_kernel(case):
     g0 = float(np.abs(tower[0] if not qed else tower[1, 0]).max())
     c = abs(math.log(a1 / a0))
     iterating = qed and sector != "qed-ns" or (sector == "singlet" and method in ITERATING and n >= 2)
-    lams = case["lambdas"] if kind == "scaling" else case["lambdas"][:1]
+    lams = list(case["lambdas"]) if kind == "scaling" else list(case["lambdas"][:1])
     D = {s: [] for s in SCHEMES}
     floor = []
     # coarse bucket coordinates: theory (qcd/qed) and, because the singlet dispatcher routes truncated and
@@ -226,39 +254,52 @@ def check_kernel(case):
     where = f"{'qed' if qed else 'qcd'}/{'singlet-truncated' if trunc else 'other-kernels'}"
     what = f"sector={sector}, order=({n},{m}), method={method}"
 
+    def evaluate(qk, lam):
+        """Unvaried, exponentiated, expanded (and expanded-on-threshold-segment) kernels at couplings scaled by lam."""
+        b0, b1 = lam * a0, lam * a1
+        if not qed:
+            b0s, _ = R.shifted(order, nf, b0, L)
+            b1s, _ = R.shifted(order, nf, b1, L)
+            # (origin, target) couplings per scheme (MHOU.rst / Operator.mu2)
+            ends = {"unvaried": (b0, b1), "exponentiated": (b0s, b1s), "expanded": (b0, b1s), "expanded-thr": (b0, b1)}
+
+            def ker(scheme, key, thr=False):
+                x0, x1 = ends[key]
+                return SV.kernel_qcd(qk, sector, order, method, x1, x0, nf, L, iters, maxo, scheme, thr)
+
+        else:
+            e0 = case["aem"] * lam**n
+            run = case["running"]
+            dt = R.time_to_reach(order, nf, b0, b1, e0, run, t_max=50000.0)
+            tr = R.Trajectory(order, nf, b0, e0, run, t_lo=min(0.0, dt) + min(0.0, L), t_hi=max(0.0, dt) + max(0.0, L))
+            m0 = 1e4  # GeV^2 at t = 0; only ratios of scales and the tau threshold (number of leptons) are read
+            # (origin, target) in t = ln(mu^2 / m0) per scheme
+            ends = {"unvaried": (0.0, dt), "exponentiated": (L, dt + L), "expanded": (0.0, dt + L), "expanded-thr": (0.0, dt)}
+
+            def mu2(t):
+                return m0 * math.exp(t)
+
+            def ker(scheme, key, thr=False):
+                t0, t1 = ends[key]
+                al, ah = R.step_lists(tr, t0, t1, iters, midpoint="geometric")
+                return SV.kernel_qed(qk, sector, order, al, ah, mu2(t0), mu2(t1), run, nf, L, scheme, thr)
+
+        ku = ker("unvaried", "unvaried")
+        kv = {s: ker(s, s) for s in SCHEMES}
+        kthr = ker("expanded", "expanded-thr", True) if kind == "threshold" else None
+        return ku, kv, kthr, (b0, b1)
+
+    def usable_of(s):
+        return [d > 30 * K_NOISE and d > 20 * f for d, f in zip(D[s], floor)]
+
     with SV.tower_kernels(tower) as qk:
-        for lam in lams:
-            b0, b1 = lam * a0, lam * a1
-            floor.append(4.0 * g0 * abs(L) * max(b0, b1) * c**3 / iters**2 if iterating else 0.0)
-            if not qed:
-                b0s, _ = R.shifted(order, nf, b0, L)
-                b1s, _ = R.shifted(order, nf, b1, L)
-                # (origin, target) couplings per scheme (MHOU.rst / Operator.mu2)
-                ends = {"unvaried": (b0, b1), "exponentiated": (b0s, b1s), "expanded": (b0, b1s), "expanded-thr": (b0, b1)}
-
-                def ker(scheme, key, thr=False):
-                    x0, x1 = ends[key]
-                    return SV.kernel_qcd(qk, sector, order, method, x1, x0, nf, L, iters, maxo, scheme, thr)
-
-            else:
-                e0 = case["aem"] * lam**n
-                run = case["running"]
-                dt = R.time_to_reach(order, nf, b0, b1, e0, run, t_max=5000.0)
-                tr = R.Trajectory(order, nf, b0, e0, run, t_lo=min(0.0, dt) + min(0.0, L), t_hi=max(0.0, dt) + max(0.0, L))
-                m0 = 1e4  # GeV^2 at t = 0; only ratios of scales and the tau threshold (number of leptons) are read
-                # (origin, target) in t = ln(mu^2 / m0) per scheme
-                ends = {"unvaried": (0.0, dt), "exponentiated": (L, dt + L), "expanded": (0.0, dt + L), "expanded-thr": (0.0, dt)}
-
-                def ker(scheme, key, thr=False):
-                    t0, t1 = ends[key]
-                    al, ah = R.step_lists(tr, t0, t1, iters, midpoint="geometric")
-                    return SV.kernel_qed(qk, sector, order, al, ah, m0 * math.exp(t0), m0 * math.exp(t1), run, nf, L, scheme, thr)
-
+        todo = list(lams)
+        lams = []
+        while todo:
+            lam = todo.pop(0)
             try:
-                ku = ker("unvaried", "unvaried")
-                kv = {s: ker(s, s) for s in SCHEMES}
-                kthr = ker("expanded", "expanded-thr", True) if kind == "threshold" else None
-            except Exception as e:  # noqa: BLE001 - repo code on in-domain input
+                ku, kv, kthr, (b0, b1) = evaluate(qk, lam)
+            except Exception as e:  # noqa: BLE001 - repo code on in-domain input (harness errors of the RGE helper are not expected here)
                 res.fail(exc_bucket(f"{ID}/K/call/{where}", e), f"{what}: {e!r} at lambda={lam}")
                 return res
             if not np.all(np.isfinite(ku)) or not all(np.all(np.isfinite(v)) for v in kv.values()):
@@ -279,23 +320,36 @@ def check_kernel(case):
                         f"{what}: expanded scheme on an intermediate (is_threshold) segment changes the kernel by {SV.rel_diff(kthr, ku):.3e}",
                     )
                 return res
+            lams.append(lam)
+            floor.append(4.0 * g0 * abs(L) * max(b0, b1) * c**3 / iters**2 if iterating else 0.0)
             for s in SCHEMES:
                 D[s].append(SV.rel_diff(kv[s], ku))
+            if not todo and len(lams) == len(case["lambdas"]):
+                # in doubt: follow lambda further down before a verdict 'too small' becomes final
+                for s in SCHEMES:
+                    v = _verdict(lams, D[s], usable_of(s), n)
+                    if v is not None and not v[1]:
+                        # QED paths are parametrised by ln mu^2 ~ c / (beta0 a): stay far from float overflow of mu^2
+                        todo = [x for x in EXTRA_LAMBDAS if x < min(lams) and (not qed or 1.3 * c / (7.0 * min(a0, a1) * x) + abs(L) < 600.0)]
+                        res.classes.append("K/followed-down")
+                        break
 
     nt = True
     for s in SCHEMES:
-        usable = [d > 100 * K_NOISE and d > 20 * f for d, f in zip(D[s], floor)]
-        ex = _exponent_two_smallest(lams, D[s], usable)
-        if ex is None:
+        usable = usable_of(s)
+        v = _verdict(lams, D[s], usable, n)
+        if v is None:
             nt = False
             res.classes.append(f"K/unusable/{s}")
             continue
+        ex, ok, local = v
         res.classes.append(f"K/exp-n~{round((ex - n) * 4) / 4:+.2f}")
-        if not ex >= n - K_THR:
+        if not ok:
             res.fail(
                 f"{ID}/K/exponent/{s}/{where}",
-                f"{what}: {s} vs unvaried kernel: D(lambda)={['%.3e' % d for d in D[s]]} for lambda={lams} (usable {usable}), exponent "
-                f"{ex:.2f} < {n - K_THR}; order {order}, nf={nf}, xi^2={case['xi2']}, a=({a0},{a1}), iterations {iters}",
+                f"{what}: {s} vs unvaried kernel: D(lambda)={['%.3e' % d for d in D[s]]} for lambda={[round(1 / x) for x in lams]}^-1 "
+                f"(usable {usable}), local exponents at the smallest usable lambdas {['%.2f' % e for e in local]} do not reach {n - K_THR}; "
+                f"order {order}, nf={nf}, xi^2={case['xi2']}, a=({a0},{a1}), iterations {iters}",
             )
     res.nontrivial = nt
     return res
